@@ -42,6 +42,26 @@ EncElem(t, v) ==
 
 EncElems(t, vs) == Concat([ i \in 1 .. Len(vs) |-> EncElem(t, vs[i]) ])
 
+(* value domains: boundary values of every type, as element octets *)
+BVals(t) ==
+  CASE t = "BOOL"  -> << <<0>>, <<255>>, <<1>>, <<128>> >>
+    [] t = "SINT"  -> << <<1>>, <<127>>, <<128>>, <<255>> >>
+    [] t = "USINT" -> << <<1>>, <<200>>, <<127>>, <<255>> >>
+    [] t = "INT"   -> << <<1, 0>>, <<255, 127>>, <<0, 128>>, <<255, 255>> >>
+    [] t = "UINT"  -> << <<1, 0>>, <<64, 156>>, <<255, 127>>, <<255, 255>> >>
+    [] t = "DINT"  -> << <<1, 0, 0, 0>>, <<255, 255, 255, 127>>, <<0, 0, 0, 128>>, <<255, 255, 255, 255>> >>
+    [] t = "UDINT" -> << <<1, 0, 0, 0>>, <<0, 94, 208, 178>>, <<255, 255, 255, 127>>, <<255, 255, 255, 255>> >>
+    [] t = "LINT"  -> << <<1, 0, 0, 0, 0, 0, 0, 0>>, <<255, 255, 255, 255, 255, 255, 255, 127>>,
+                         <<0, 0, 0, 0, 0, 0, 0, 128>>, <<255, 255, 255, 255, 255, 255, 255, 255>> >>
+    [] t = "ULINT" -> << <<1, 0, 0, 0, 0, 0, 0, 0>>, <<0, 0, 0, 0, 1, 0, 0, 128>>,
+                         <<255, 255, 255, 255, 255, 255, 255, 127>>, <<255, 255, 255, 255, 255, 255, 255, 255>> >>
+    [] t = "REAL"  -> << <<0, 0, 128, 63>>, <<0, 0, 128, 191>>, <<0, 0, 32, 64>>, <<255, 255, 127, 127>> >>
+    [] t = "LREAL" -> << <<0, 0, 0, 0, 0, 0, 240, 63>>, <<0, 0, 0, 0, 0, 0, 240, 191>>, <<0, 0, 0, 0, 0, 0, 4, 64>>,
+                         <<255, 255, 255, 255, 255, 255, 239, 127>> >>
+    [] t = "SSTRING" -> << <<97>>, <<97, 98>>, <<>>, <<97, 98, 99>> >>
+    [] t = "STRING"  -> << <<97>>, <<97, 98>>, <<>>, <<97, 98, 99>> >>
+
+
 ----------------------------------------------------------------------------
 (* EPATH.  A segment is a record with field k:                              *)
 (*   [k |-> "class"|"inst"|"attr"|"elem"|"conn", v |-> n]   (n < 2^31)      *)
@@ -57,6 +77,7 @@ EncSeg(g) ==
          (IF g.p < 15 THEN <<g.p, g.l>> ELSE <<15>> \o U16(g.p) \o <<g.l>>)        \* extended port; padded to even below
   ELSE IF g.k = "porta" THEN
          PadEven((IF g.p < 15 THEN <<16 + g.p, Len(g.a)>> ELSE <<31, Len(g.a)>> \o U16(g.p)) \o g.a)
+  ELSE IF g.k = "elem32" THEN <<LogicalBase("elem") + 2, 0>> \o U32L(g.w)          \* 32-bit element id given as limbs <<lo, hi>>
   ELSE IF g.v < 256 THEN <<LogicalBase(g.k), g.v>>
   ELSE IF g.v < 65536 THEN <<LogicalBase(g.k) + 1, 0>> \o U16(g.v)
   ELSE <<LogicalBase(g.k) + 2, 0>> \o U32(g.v)
@@ -70,6 +91,34 @@ EncEPATHpad(segs) == LET b == EncSegs(segs) IN <<Len(b) \div 2, 0>> \o b
 SymSeg(name)  == [k |-> "sym", s |-> name]
 ElemSeg(i)    == [k |-> "elem", v |-> i]
 CIASegs(cia)  == << [k |-> "class", v |-> cia[1]], [k |-> "inst", v |-> cia[2]], [k |-> "attr", v |-> cia[3]] >>
+
+----------------------------------------------------------------------------
+(* Decoding of EPATH segments (the inverse table), used to check that the encoding is uniquely decodable. *)
+\* one segment at the head of octets b: <<segment, octets consumed>>, or <<"bad", 0>>
+DecSeg(b) ==
+  IF Len(b) < 2 THEN <<"bad", 0>>
+  ELSE LET h == b[1] IN
+  IF h = 145 THEN LET n == b[2]  tot == 2 + n + (n % 2) IN
+       IF Len(b) < tot THEN <<"bad", 0>> ELSE << [k |-> "sym", s |-> SubSeq(b, 3, 2 + n)], tot >>
+  ELSE IF h \in {32, 36, 40, 44, 48} THEN
+       << [k |-> (CASE h = 32 -> "class" [] h = 36 -> "inst" [] h = 40 -> "elem" [] h = 44 -> "conn" [] h = 48 -> "attr"), v |-> b[2]], 2 >>
+  ELSE IF h \in {33, 37, 41, 45, 49} THEN
+       IF Len(b) < 4 THEN <<"bad", 0>> ELSE
+       << [k |-> (CASE h = 33 -> "class" [] h = 37 -> "inst" [] h = 41 -> "elem" [] h = 45 -> "conn" [] h = 49 -> "attr"), v |-> LE(SubSeq(b, 3, 4))], 4 >>
+  ELSE IF h = 42 THEN
+       IF Len(b) < 6 THEN <<"bad", 0>> ELSE << [k |-> "elem32", w |-> <<LE(SubSeq(b, 3, 4)), LE(SubSeq(b, 5, 6))>>], 6 >>
+  ELSE IF h >= 1 /\ h <= 14 THEN << [k |-> "port", p |-> h, l |-> b[2]], 2 >>
+  ELSE IF h = 15 THEN IF Len(b) < 4 THEN <<"bad", 0>> ELSE << [k |-> "port", p |-> LE(SubSeq(b, 2, 3)), l |-> b[4]], 4 >>
+  ELSE IF h >= 17 /\ h <= 30 THEN LET n == b[2]  tot == 2 + n + (n % 2) IN
+       IF Len(b) < tot THEN <<"bad", 0>> ELSE << [k |-> "porta", p |-> h - 16, a |-> SubSeq(b, 3, 2 + n)], tot >>
+  ELSE IF h = 31 THEN LET n == b[2]  tot == 4 + n + (n % 2) IN
+       IF Len(b) < tot THEN <<"bad", 0>> ELSE << [k |-> "porta", p |-> LE(SubSeq(b, 3, 4)), a |-> SubSeq(b, 5, 4 + n)], tot >>
+  ELSE <<"bad", 0>>
+RECURSIVE DecSegs(_)
+DecSegs(b) == IF b = <<>> THEN <<>>
+              ELSE LET d == DecSeg(b) IN IF d[2] = 0 THEN <<"bad">> ELSE <<d[1]>> \o DecSegs(SubSeq(b, d[2] + 1, Len(b)))
+\* canonical form of a 32-bit element given by value (< 65536 fits narrower formats; >= 65536 decodes as limbs)
+DecEPATH(b) == IF Len(b) < 1 \/ Len(b) # 1 + 2 * b[1] THEN <<"bad">> ELSE DecSegs(SubSeq(b, 2, Len(b)))
 
 ----------------------------------------------------------------------------
 (* Status: general status, size of extended status in words, the words *)
